@@ -163,6 +163,17 @@ CHECKS["C16"] = dict(
          "outside the model. Known finding F17: enumeration on a nested (keyed) schema yields paths that do not resolve on it.",
     technique="Lean 4 proof (mutual structural recursion over schemas; fold induction) + model/implementation correspondence",
     design="6 C16")
+CHECKS["C10"] = dict(
+    text="Lean 4 theorems about the code-order to_tree: a sensitive field is rendered as the mask (one character repeated to the value's "
+         "length, any other mask verbatim, a falsy value as null) without computing its to_basic; a non-sensitive field is rendered "
+         "exactly as without a mask; without a mask every leaf is its field's to_basic; the same mask and virtual flag reach nested "
+         "sub-configurations, config types and every configuration held in a list (element-wise lemma). Correspondence: histories "
+         "ending in to_tree with several masks vs the model; marker stream (unique plaintexts in every sensitive position at every "
+         "depth and in list items) over tree and five document formats.",
+    note=CFG_NOTE + " len(str(value)) is modelled for str/int/bool values. Document-level absence of markers is explored, the tree-level "
+         "statement is proved.",
+    technique="Lean 4 proof (case analysis of the rendering loop; list induction for items) + model/implementation correspondence",
+    design="6 C10")
 PENDING = ["C01", "C02", "C03", "C04", "C05", "C06", "C07", "C08", "C09", "C10", "C11", "C12", "C13", "C14", "C15", "C16",
            "C17", "C19", "C20"]
 
